@@ -137,6 +137,13 @@ CHECKS = {
                 note="sequentially consistent interleavings at hook points only; default schedule replayed twice before exploring (determinism); TSan pass is "
                      "a separate free-running run because the cooperative hand-offs would hide races",
                 technique="stateless preemption-bounded exploration of thread interleavings on the real code (CHESS-style) plus explicit enumeration of action histories; TSan for unsynchronised accesses"),
+    "C20": dict(level="model_checking", ref="3/C20",
+                text="pool of 22 programs (one per piece of process-wide or per-VM state): each twice in fresh processes; all ordered pairs (Q then P in a fresh "
+                     "instance, Q's instance destroyed or alive); P beside Q on two threads with all interleavings at instruction boundaries up to 1/2 "
+                     "preemptions (token-passing scheduler on the do.poll hook), P's structured log compared byte-wise with P alone; plus free-running "
+                     "ThreadSanitizer pass over pairs for races between independent instances",
+                note="time / random operators excluded; the controlled exploration does not interleave inside VM construction (no hook points there) - that part is covered by the TSan pass only",
+                technique="exhaustive pairwise history enumeration plus preemption-bounded interleaving exploration on the real code; TSan for unsynchronised accesses"),
 }
 
 PENDING_REASON = "check not built yet in this round (planned, see DESIGN.md section 3)"
